@@ -5,6 +5,7 @@ import (
 	"encoding/json"
 	"fmt"
 	"strconv"
+	"strings"
 
 	"mvdan.cc/sh/v3/syntax"
 	"verifsim/kit"
@@ -136,6 +137,16 @@ func runC10(it *Item, tier string, st *Stats) ([]Violation, uint64) {
 		cfgHash := kit.Hash64([]byte(lang))
 		ref := parseOneShot(cfg, data)
 		valid := ref.Panic == "" && ref.Err == nil
+		if !valid && ref.Panic == "" && it.Valid[lang] && (strings.HasPrefix(it.Origin, "variants[") || strings.HasPrefix(it.Origin, "corpus[")) {
+			// Recorded as a valid program of this variant when the corpus
+			// was harvested (variants: also by "bash -n"). The whole program
+			// is its own prefix at the last line boundary, so a failure
+			// that is not reported as incomplete breaks the clause.
+			st.Probes.Add("recorded-valid-program-now-rejected", 1)
+			if !syntax.IsIncomplete(ref.Err) {
+				viols = append(viols, mkC10Violation(it, cfg, data, OneShot(), "recorded-valid-program-rejected-and-not-incomplete", fmt.Sprintf("recorded as a valid %s program (%s), now fails with %s", lang, it.Origin, errString(ref.Err)), len(data)))
+			}
+		}
 		note := func(class string, cut int, nontrivial bool) {
 			if nontrivial {
 				st.Distinct[inputHash^cfgHash*31^uint64(cut+7)*1000003^kit.Hash64([]byte(class))] = struct{}{}
